@@ -13,6 +13,7 @@ import (
 	"github.com/buildkite/go-pipeline/ordered"
 	"github.com/buildkite/go-pipeline/signature"
 	"github.com/buildkite/go-pipeline/warning"
+	"github.com/davecgh/go-spew/spew"
 	"github.com/lestrrat-go/jwx/v2/jwk"
 	"gopkg.in/yaml.v3"
 	"verifharness/sx"
@@ -57,7 +58,10 @@ func c19work(text string, key signKey, penv map[string]string) string {
 	return res + fmt.Sprintf("|verified=%d", n)
 }
 
-func c19snapshot(v any) string { return fmt.Sprintf("%#v", v) }
+var c19spew = spew.ConfigState{DisablePointerAddresses: true, DisableCapacities: true, SortKeys: true, Indent: " "}
+
+// deep dump following pointers (unexported fields included), without addresses
+func c19snapshot(v any) string { return c19spew.Sdump(v) }
 
 func init() {
 	props["C19"] = func(rng *sx.Rng, thorough bool) {
@@ -118,6 +122,9 @@ func init() {
 			om.Range(func(k string, v any) error { om2.Set(k, v); return nil })
 			g := newDocgen(rng, false)
 			sdoc := dMap(dkv{"steps", g.signableSteps(2, 5, false)})
+			sdoc.get("steps").l = append(sdoc.get("steps").l, dMap(dkv{"command", dStr("x")},
+				dkv{"plugins", dList(dMap(dkv{"artifacts#v1", dMap()}), dMap(dkv{"other#v2", dList()}))},
+				dkv{"matrix", dMap(dkv{"setup", dMap()})}, dkv{"env", dMap()}))
 			var sb bytes.Buffer
 			sdoc.jsonText(&sb)
 			shared, perr := pipeline.Parse(strings.NewReader(sb.String()))
@@ -125,6 +132,15 @@ func init() {
 				continue
 			}
 			key := keys[r%len(keys)]
+			// a second, never signed copy: only observers touch it (signing marshals plugins and matrices too)
+			fresh, _ := pipeline.Parse(strings.NewReader(sb.String()))
+			freshBefore := c19snapshot(*fresh)
+			signedBefore := c19snapshot(*shared)
+			signature.SignSteps(context.Background(), shared.Steps, key.priv, "repo")
+			eraseSigs(shared.Steps)
+			if after := c19snapshot(*shared); after != signedBefore {
+				oracleFail("C19", "sign-mutates", sx.A(sb.String()), "SignSteps changed more than the signatures:\n"+signedBefore+"\n"+after)
+			}
 			signature.SignSteps(context.Background(), shared.Steps, key.priv, "repo")
 			ks, _ := key.verify.(jwk.Set)
 			before := c19snapshot(om) + c19snapshot(*shared)
@@ -167,6 +183,8 @@ func init() {
 							errs[i] = "shared pipeline marshals differently"
 						}
 						yaml.Marshal(shared)
+						json.Marshal(fresh)
+						yaml.Marshal(fresh)
 						for _, s := range shared.Steps {
 							if cs, ok := s.(*pipeline.CommandStep); ok && cs.Signature != nil {
 								if err := verifyStep(key, cs.Signature, cs, "repo", nil); err != nil {
@@ -192,6 +210,9 @@ func init() {
 				}
 			}
 			// ---- (c) observers never modify what they observe
+			if fa := c19snapshot(*fresh); fa != freshBefore {
+				oracleFail("C19", "observer-mutates", sx.A(sb.String()), "marshalling changed the pipeline it observed:\n"+freshBefore+"\n"+fa)
+			}
 			after := c19snapshot(om) + c19snapshot(*shared)
 			if before != after {
 				oracleFail("C19", "observer-mutates", sx.A(sb.String()), "internal representation changed under observers:\n"+before+"\n"+after)
